@@ -77,6 +77,7 @@ func c03(c *Ctx) {
 	c.Guarded("discover/salt2", bt, rec, gs(GP("("+u32("[12:]")+" == p0.wal.salt2)", true)), 1, "a frame is recorded only if its salt-2 equals the header's", "")
 	c.Guarded("discover/chksum1", bt, rec, gs(GP("("+u32("[16:]")+" == litefs.WALChecksum(@@)#0)", true)), 1, "a frame is recorded only if checksum-1 equals the running checksum", "a torn or overwritten frame ends the valid prefix")
 	c.Guarded("discover/chksum2", bt, rec, gs(GP("("+u32("[20:]")+" == litefs.WALChecksum(@@)#1)", true)), 1, "a frame is recorded only if checksum-2 equals the running checksum", "")
+	c.walCommitScanPageNonzero("discover")
 	// checksum chaining
 	wcs := Instrs(c.F(bt), p.PlainCalls("litefs.WALChecksum"))
 	chainDesc := "the running checksum is WALChecksum(order, prev, frame[:8]) then (.., frame[24:]), seeded from wal.chksum1/2 and carried from frame to frame"
@@ -351,4 +352,16 @@ func (c *Ctx) walFrameReads(key string) {
 		return
 	}
 	c.ok(key, rule, desc, n)
+}
+
+// walCommitScanPageNonzero (C03, C17): the commit-time WAL scan applies the
+// rule WALReader.ReadFrame applies - a frame for page zero ends the valid prefix.
+func (c *Ctx) walCommitScanPageNonzero(prefix string) {
+	p := c.P
+	bt := "litefs.(*DB).buildTxFrameOffsets"
+	rec := p.MapUpdateOn(pat("make(map[uint32]int64)"))
+	zero := G(`^\(0 == encoding/binary\.\(bigEndian\)\.Uint32\(encoding/binary\.BigEndian, .*\[0:\]\)\)$`, false)
+	c.Guarded(prefix+"/page-nonzero", bt, rec, gs(zero), 1, "a frame is recorded by the commit-time scan only when its page number is not zero",
+		"F45: SQLite and WALReader end the valid prefix at such a frame; taken into a transaction it is refused by the LTX encoder and the node exits at commit time")
+	c.Guarded(prefix+"/page-nonzero/before-commit-exit", bt, p.SuccessReturn, gs(zero), 1, "... and no transaction is reported through a frame for page zero", "")
 }
